@@ -13,7 +13,7 @@ PLAN = dict(
          "powers of two, multiples of 8 +-1 up to 137 and a stride of 5); c13.built constructs semantically valid but "
          "mis-sized payloads with the public API; c13.modes drives AEAD Open (every length 0..200 and every cut of a genuine "
          "ciphertext) and the XTS/HCTR decrypters in every SM4 dispatch tier; c13.sweep.tiers / c13.built.tiers repeat the "
-         "entry points that decrypt content with an SM4 mode in the noclmul, noaes, avx and sse tiers (thorough: aesni1 too), every constructed payload of 1..8 blocks in both guard placements; a der-oid mutator puts every value into the last two bytes of every OBJECT IDENTIFIER and replaces it by the other OIDs known to the run (seed OIDs + the library's exported ones; sampled in quick). a text-grammar mutator treats every string value (universal string and time types, GeneralName forms, the header lines of encrypted PEM blocks, the text of CFCA escrow blobs; BMPString in 2-octet units) as a little language: at EVERY position delete, cut, drop the head, insert and substitute each of 16 significant characters (quote, backslash, @ . : [ ] % / * , - space NUL LF non-ASCII; thorough 36), cut-and-end-with each of them, insert 8 significant tokens (two dots, two backslashes, backslash-quote, @@ :: :// %00 CRLF; thorough 16), double the string - enclosing DER lengths recomputed (on the entry points that feed the X.509 / CSR / CRL / PEM / escrow parsers directly; containers that embed certificates reach the same sub-parsers; not in the race variant); the seed certificates include a names PKI (root -> intermediate -> leaves) with every GeneralName form, every RFC 2821 mailbox form (quoted local parts, quoted pairs), URIs with userinfo/port/IPv6 literal/escapes, name constraints of all four handled kinds (permitted and excluded, IPv4/IPv6 masks) plus unhandled kinds, every string type, policy qualifiers, CRL/IDP/AIA forms; c13.names re-signs every DER-tree mutant (DER edits, re-lengths, text grammar; thorough: OIDs) of a leaf and of the intermediate with the issuer's key, so that Certificate.Verify gets past the signature check and runs the name-constraint and SAN sub-parsers on the hostile values (hostile leaf below the genuine CA; hostile intermediate between genuine root and leaf; the plain sweep also uses a hostile trust anchor), plus VerifyHostname with fixed and hostile host names; c13.built also constructs algebraically exceptional inputs with the harness' own arithmetic (ref/ec, ref/bn; confirmed by the reference verifier): SM2 (digest, signature) pairs with R = [s]G, r+s = n, r = e, small abscissas, [s]G+[t]P = infinity, [s]G = [t]P, structured honest nonces and range ends for nine digest forms (VerifyASN1, Verify, WithSM2 variants, key recovery, the generic verifier on P-384), SM2 ciphertexts with structured C1 (G, -G, P, x = 0/tiny/p-1, unreduced x+p, infinity encodings) and a genuine C3 in every layout, SM2 key agreement peers whose static key and ephemeral point sum to infinity or are equal (KeyExchange both roles, ecdh.SM2MQV), SM9 signatures/ciphertexts/wrapped keys/key-agreement messages with S or C1 = infinity, +-P1, +-Q, unreduced or off-curve (MAC genuine where the recipient can unwrap), SM9 master and user keys from hostile files (infinity, Ppub = -[h1]P, twist points outside the subgroup) then used. One case = (entry point, artefact, mutator, range of <= 256 positions); "
+         "entry points that decrypt content with an SM4 mode in the noclmul, noaes, avx and sse tiers (thorough: aesni1 too), every constructed payload of 1..8 blocks in both guard placements; a der-oid mutator puts every value into the last two bytes of every OBJECT IDENTIFIER and replaces it by the other OIDs known to the run (seed OIDs + the library's exported ones; sampled in quick). a text-grammar mutator treats every string value (universal string and time types, GeneralName forms, the header lines of encrypted PEM blocks, the text of CFCA escrow blobs; BMPString in 2-octet units) as a little language: at EVERY position delete, cut, drop the head, insert and substitute each of 16 significant characters (quote, backslash, @ . : [ ] % / * , - space NUL LF non-ASCII; thorough 36), cut-and-end-with each of them, insert 8 significant tokens (two dots, two backslashes, backslash-quote, @@ :: :// %00 CRLF; thorough 16), double the string - enclosing DER lengths recomputed (on the entry points that feed the X.509 / CSR / CRL / PEM / escrow parsers directly; containers that embed certificates reach the same sub-parsers; not in the race variant); the seed certificates include a names PKI (root -> intermediate -> leaves) with every GeneralName form, every RFC 2821 mailbox form (quoted local parts, quoted pairs), URIs with userinfo/port/IPv6 literal/escapes, name constraints of all four handled kinds (permitted and excluded, IPv4/IPv6 masks) plus unhandled kinds, every string type, policy qualifiers, CRL/IDP/AIA forms; c13.names re-signs every DER-tree mutant (DER edits, re-lengths, text grammar; thorough: OIDs) of a leaf and of the intermediate with the issuer's key, so that Certificate.Verify gets past the signature check and runs the name-constraint and SAN sub-parsers on the hostile values (hostile leaf below the genuine CA; hostile intermediate between genuine root and leaf; the plain sweep also uses a hostile trust anchor), plus VerifyHostname with fixed and hostile host names; c13.built also constructs algebraically exceptional inputs with the harness' own arithmetic (ref/ec, ref/bn; confirmed by the reference verifier): SM2 (digest, signature) pairs with R = [s]G, r+s = n, r = e, small abscissas, [s]G+[t]P = infinity, [s]G = [t]P, structured honest nonces and range ends for nine digest forms (VerifyASN1, Verify, WithSM2 variants, key recovery, the generic verifier on P-384), SM2 ciphertexts with structured C1 (G, -G, P, x = 0/tiny/p-1, unreduced x+p, infinity encodings) and a genuine C3 in every layout, SM2 key agreement peers whose static key and ephemeral point sum to infinity or are equal (KeyExchange both roles, ecdh.SM2MQV), SM9 signatures/ciphertexts/wrapped keys/key-agreement messages with S or C1 = infinity, +-P1, +-Q, unreduced or off-curve (MAC genuine where the recipient can unwrap), SM9 master and user keys from hostile files (infinity, Ppub = -[h1]P, twist points outside the subgroup) then used. Thorough tier only: a coverage-guided fuzzing stage (Go native fuzzing, 150 000 executions per entry point from its valid artefacts) proposes failing inputs, each of which the child executes as one more case (c13.fuzzreplay). One case = (entry point, artefact, mutator, range of <= 256 positions); "
          "distinct = configuration | entry point / mutator. The hostile bytes sit in guard-page buffers (len == cap), three of "
          "four mutants against the upper page and one against the lower (thorough: every mutant in both placements).",
     # jobs start in this order on 16 workers: the long ones (pure-Go sweep, 32-bit build) first
@@ -38,7 +38,7 @@ PLAN = dict(
             dict(J("c13.modes", ["avx2"], "race", shards=(1, 2), floor=80), thorough_only=True)],
     # thorough tier: coverage-guided fuzzing (Go native fuzzing) of every catalogued entry point from its valid artefacts,
     # a fixed number of executions per entry point; failing inputs are confirmed by the child (workload c13.fuzzreplay)
-    fuzz=dict(pkg="./fuzz/c13", func="FuzzC13", execs=(0, 40000), replay_wl="c13.fuzzreplay", variant="asm", parallel=4,
+    fuzz=dict(pkg="./fuzz/c13", func="FuzzC13", execs=(0, 150000), replay_wl="c13.fuzzreplay", variant="asm", parallel=4,
               thorough_only=True, wall=1800),
     exhaustive_note="for the seed artefacts of the run, the truncation class (every proper prefix), the four single-byte "
                     "substitution classes (every position) and the DER-edit class (every element x every edit) are enumerated "
@@ -72,5 +72,5 @@ CLAIM = dict(
     note="trusted: Go runtime bounds checks and fault recovery, kernel page protection, encoding/asn1 (work-factor guard), "
          "the harness DER re-serialiser (checked to reproduce every seed byte for byte before it is used), the reference "
          "arithmetic ref/ec, ref/bn, ref/sm2sig, ref/sm9 (construction of exceptional values; self-tested)",
-    technique="panic/fault monitor + guard pages + watchdog over mutation-enumerated hostile inputs",
+    technique="panic/fault monitor + guard pages + watchdog over mutation-enumerated hostile inputs; thorough tier: coverage-guided fuzzing proposes inputs that the monitored child confirms",
 )
